@@ -66,6 +66,23 @@ Definition suite_class (id : N) : option N :=
   | _ => None
   end.
 
+(* ---------- switches for repaired defects ([true] = the code of /repo now) ----------
+   F73 (repaired by 4d323b9): generateState read LocalSequenceNumber[LocalEpoch] WITHOUT a bounds
+   check; between fsm12.prepare's SetLocalEpoch(1) and the first record of that epoch the index
+   does not exist and ConnectionState() panicked.  [true]: such a state is refused
+   (ErrHandshakeInProgress), as it is before the handshake. *)
+Definition export_checks_counter_exists : bool := true.
+(* F74 (repaired by 920182a): generateInternalState accepted any 64-bit value as the next record
+   sequence number; with 2^64-1 the first write failed, the counter wrapped and later writes went
+   out as records 0, 1, ... of the same epoch and key.  [true]: a number above 2^48 (= MaxSequenceNumber
+   + 1, the value of an exhausted counter) is refused with ErrSequenceNumberOverflow. *)
+Definition import_checks_seq_limit : bool := true.
+(* F67 (repaired by 559b800): conn.go prepareHandshakeStart reached the resume branch only when
+   the options limited the connection to DTLS 1.2; with options that allow DTLS 1.3 the resume
+   state was ignored and a NEW handshake started.  [true]: a resume state is honoured whatever
+   versions the options allow. *)
+Definition resume_honoured_for_any_version : bool := true.
+
 (* ---------- internal connection state (internal/state Common + State12), projected ---------- *)
 Record istate := mkI {
   i_version : N;                 (* LocalVersion *)
@@ -150,15 +167,15 @@ Arguments Panics {A}.
 
 Definition get (l : list N) (e : N) : N := nth (N.to_nat e) l 0.
 
-(* generateState: refuses a missing suite and DTLS 1.3; reads LocalSequenceNumber[LocalEpoch]
-   WITHOUT a bounds check (generateState13 has one); copies the peer MKI only when a profile
-   was negotiated; always labels the state 1.2 *)
-Definition gen_state (s : istate) : outcome pstate :=
+(* generateState: refuses a missing suite and DTLS 1.3; refuses a state whose current local epoch
+   has no sequence counter yet ([chk]; before 4d323b9 the index was read unchecked: run-time
+   panic); copies the peer MKI only when a profile was negotiated; always labels the state 1.2 *)
+Definition gen_state_gen (chk : bool) (s : istate) : outcome pstate :=
   match i_suite s with
   | None => Refused
   | Some id =>
     if i_version s =? v13 then Refused
-    else if N.of_nat (length (i_local_seq s)) <=? i_local_epoch s then Panics
+    else if N.of_nat (length (i_local_seq s)) <=? i_local_epoch s then (if chk then Refused else Panics)
     else Ok {| p_version := v12;
                p_local_epoch := i_local_epoch s; p_remote_epoch := i_remote_epoch s;
                p_local_random := i_local_random s; p_remote_random := i_remote_random s;
@@ -172,6 +189,7 @@ Definition gen_state (s : istate) : outcome pstate :=
                p_certs := i_certs s; p_hint := i_hint s; p_session_id := i_session_id s;
                p_alpn := i_alpn s |}
   end.
+Definition gen_state : istate -> outcome pstate := gen_state_gen export_checks_counter_exists.
 
 (* State.serialize *)
 Definition serialize (p : pstate) : option sstate :=
@@ -212,10 +230,15 @@ Definition pre_keys (p : pstate) : bool :=
   (p_local_epoch p =? 0) || match p_master p with [] => true | _ :: _ => false end.
 
 (* generateInternalState + (conn.go prepareHandshakeStart12 with ResumeState): what is restored,
-   and what starts from its zero value *)
-Definition gen_internal (p : pstate) : option istate :=
+   and what starts from its zero value.  [lim]: the sequence number limit of 920182a - 2^48 itself
+   (an exhausted counter: every write fails) is still accepted, anything above is not, whether it
+   comes from damaged bytes or from a connection that kept attempting writes after exhaustion
+   (each attempt advances the counter) *)
+Definition seq_limit : N := max_seq + 1.
+Definition gen_internal_gen (lim : bool) (p : pstate) : option istate :=
   if p_suite p =? 0 then None
   else if p_version p =? v13 then None
+  else if lim && (seq_limit <? p_seq p) then None        (* ErrSequenceNumberOverflow *)
   else if pre_keys p then None                           (* ErrHandshakeInProgress *)
   else if negb (suite_known (p_suite p)) then None      (* InitCipherSuite: ErrCipherSuiteNotSet *)
   else Some {| i_version := v12;                          (* forced, whatever p_version says *)
@@ -235,6 +258,7 @@ Definition gen_internal (p : pstate) : option istate :=
                i_alpn := p_alpn p;
                i_ems := false; i_cid_offered := (false, false); i_certs_verified := false;
                i_hs_seq := (0, 0) |}.
+Definition gen_internal : pstate -> option istate := gen_internal_gen import_checks_seq_limit.
 
 (* ConnectionState -> MarshalBinary -> UnmarshalBinary -> Resume, end to end *)
 Definition import_export (s : istate) : option istate :=
@@ -252,6 +276,43 @@ Definition import_export (s : istate) : option istate :=
 (* Conn.RemoteSRTPMasterKeyIdentifier / SelectedSRTPProtectionProfile *)
 Definition obs_profile (s : istate) : option N := if i_profile s =? 0 then None else Some (i_profile s).
 Definition obs_mki (s : istate) : option bytes := if i_profile s =? 0 then None else Some (i_mki s).
+
+(* ---------- how the Conn built by resumeWithConfig starts (conn.go prepareHandshakeStart) ----------
+   [vmin], [vmax]: handshakeConfig.MinVersion / MaxVersion (normalised: each is 1.2 or 1.3);
+   [resume]: handshakeConfig.ResumeState <> nil.  Only StartFinished uses the resume state
+   (prepareHandshakeStart12: client at Flight5, server at Flight6, FSM state FINISHED); the other
+   three run a new handshake (a client writes a plaintext ClientHello, a server waits for one). *)
+Inductive hs_start := StartFinished | StartNew12 | StartNew13 | StartDualStack.
+
+Definition hs_start_eqb (a b : hs_start) : bool :=
+  match a, b with
+  | StartFinished, StartFinished | StartNew12, StartNew12 | StartNew13, StartNew13
+  | StartDualStack, StartDualStack => true
+  | _, _ => false
+  end.
+
+Definition handshake_start_gen (honour : bool) (vmin vmax : N) (resume : bool) : hs_start :=
+  if (vmax =? v12) || (honour && resume) then (if resume then StartFinished else StartNew12)
+  else if vmin =? v13 then StartNew13
+  else StartDualStack.
+Definition handshake_start : N -> N -> bool -> hs_start := handshake_start_gen resume_honoured_for_any_version.
+
+(* the state a Conn reports between createConn and its first Handshake/Read/Write: createConn
+   gives every Conn a blank state (dtlsstate.NewActive); the resume state sits in the handshake
+   configuration and is only installed by prepareHandshakeStart12, i.e. lazily *)
+Definition blank_conn (is_client : bool) : istate :=
+  {| i_version := v_zero; i_local_epoch := 0; i_remote_epoch := 0; i_local_random := []; i_remote_random := [];
+     i_master := []; i_local_seq := []; i_remote_seq := []; i_replay := []; i_suite := None; i_profile := 0;
+     i_mki := []; i_local_cid := []; i_remote_cid := []; i_rrc := false; i_is_client := is_client;
+     i_certs := []; i_hint := []; i_session_id := []; i_alpn := [];
+     i_ems := false; i_cid_offered := (false, false); i_certs_verified := false; i_hs_seq := (0, 0) |}.
+Definition resumed_conn_before_start (x : istate) : istate := blank_conn (i_is_client x).
+
+(* fsm12.finish answers a peer retransmission of the previous flight by re-sending the flights it
+   kept from the handshake.  The flights, LocalVerifyData and the handshake message counters are
+   not exported; of these the model carries the counters: a side that ran a handshake has sent at
+   least one handshake message, a resumed one starts with (0, 0) and an empty flight list. *)
+Definition can_repeat_final_flight (s : istate) : bool := negb (fst (i_hs_seq s) =? 0).
 
 (* ---------- keying material: the PRF is a parameter of every statement ---------- *)
 Section Keys.
